@@ -183,7 +183,7 @@ def check_axes(ctx, c):
     for i in range(dim):
         if common.maxabs(axes[i] - ref[:, i]) > 1e-13:
             ctx.fail({"what": "model.main_axes!=oracle", "dim": dim}, f"axis {i}")
-        if abs(lvec[i] - c["len_scale"] * e[i]) > 1e-12 * lvec[i]:
+        if not abs(lvec[i] - c["len_scale"] * e[i]) <= 1e-12 * lvec[i]:
             ctx.fail({"what": "len_scale_vec", "dim": dim}, f"len_scale_vec[{i}]={lvec[i]} expected {c['len_scale']*e[i]}")
         pts = ref[:, [i]] * t[None, :]
         ctx.event("axis_profiles")
